@@ -8,8 +8,7 @@ THEOREMS = ['C07_assembled_wf', 'C07_vectors_are_the_assets', 'C07_row_points_to
 CFG = {'p_coarse': 0.2, 'p_periodic': 0.2, 'T': (3, 8), 'n_assets': (1, 5), 'nodes': (1, 3), 'p_window': 0.5,
        'p_no_simult': 0.2, 'p_max_store': 0.15, 'p_full_exec': 0.2,
        'window_kinds': ['inside', 'left', 'right', 'straddle_l', 'straddle_r', 'before', 'after', 'offgrid'],
-       'kinds': {'SimpleContract': 2, 'Contract': 2, 'Transport': 2, 'Storage': 3,
-                 'MultiCommodityContract': 2, 'OrderBook': 3, 'ExtendedTransport': 1}}
+       'kinds': {'SimpleContract': 2, 'Contract': 2, 'Transport': 2, 'Storage': 3, 'MultiCommodityContract': 2, 'OrderBook': 3, 'ExtendedTransport': 1, 'ScaledAsset': 3, 'StructuredAsset': 2}}
 
 NAMES = ['assembled c = assets c', 'assembled l', 'assembled u', 'assembled rows = embedded asset rows + nodal rows',
          'assembled mapping = shifted asset mappings', '(step,node) record of nodal rows',
@@ -59,6 +58,7 @@ def run(ctx):
         return
     n = 60 if ctx.tier == 'quick' else 400
     specs = util.corpus(ctx.prop) + gen.gen_many(ctx.seed, n, CFG, 'c07_')
+    specs += util.orderbook_tail_specs(ctx.seed, 10 if ctx.tier == 'quick' else 60, 'c07ob_', split=False)
     for sp in specs:
         sp['opts']['no_solve'] = True
     res = C.run_impl('portfolio', specs)
